@@ -1,5 +1,7 @@
 import DirectVerif.Gen.C07
 import DirectVerif.Model.MaskBudget
+import DirectVerif.Model.C07Magic
+import DirectVerif.Model.C07Bisect
 import DirectVerif.Props.C07
 import Mathlib.Tactic.Ring
 import Mathlib.Data.Rat.Floor
@@ -45,12 +47,73 @@ theorem gaussian2d_request_eq (rows cols R : ℚ) (L : Int) :
   simp only [gaussian2d_request, gaussianRequest, Rat.floor_intCast]
   try (congr 1; ring)
 
+/-! ### Magic -/
+
+theorem magic_target_eq (N : Int) (R : ℚ) : magic_target (N : ℚ) R = magicTarget N R := by
+  unfold magic_target magicTarget; rfl
+
+theorem magic_adjusted_eq (N rest : Int) : magic_adjusted (N : ℚ) (rest : ℚ) = magicAdj N rest := by
+  unfold magic_adjusted magicAdj
+  by_cases h : rest > 0
+  · have h' : (rest : ℚ) > 0 := by exact_mod_cast h
+    simp only [h, h', if_true]
+  · have h' : ¬ (rest : ℚ) > 0 := by exact_mod_cast h
+    simp only [h, h', if_false]
+
+theorem magic_low_eq (l t : Int) : magic_low l t = magicLow l t := by
+  unfold magic_low magicLow pyMax pyMin
+  split_ifs <;> omega
+
+theorem magic_rest_eq (t l : Int) : magic_rest t l = magicRest t l := by
+  unfold magic_rest magicRest; rfl
+
+theorem magic_off_pos_eq (offset : Int) : magic_off_pos offset = magicOffPos offset := by
+  simp only [magic_off_pos, magicOffPos, Int.fmod_eq_emod_of_nonneg _ (by decide : (0 : Int) ≤ 2), beq_iff_eq]
+
+theorem magic_off_neg_eq (offset : Int) : magic_off_neg offset = magicOffNeg offset := by
+  simp only [magic_off_neg, magicOffNeg, Int.fmod_eq_emod_of_nonneg _ (by decide : (0 : Int) ≤ 2), beq_iff_eq]
+
+theorem magic_poslen_eq (n : Int) : magic_poslen n = magicPosLen n := by
+  simp only [magic_poslen, magicPosLen, Int.fdiv_eq_ediv_of_nonneg _ (by decide : (0 : Int) ≤ 2)]
+
+theorem magic_neglen_eq (n : Int) : magic_neglen n = magicNegLen n := by
+  simp only [magic_neglen, magicNegLen, Int.fdiv_eq_ediv_of_nonneg _ (by decide : (0 : Int) ≤ 2)]
+
+/-- the frame loop draws, strides, flips, shifts and unites exactly as `magicFrame` does -/
+theorem magic_plan_eq : magicPlan = expectedMagicPlan := by decide
+
+/-- the call's parameters computed with the **translated** expressions are the model's -/
+theorem magic_params_eq (N lRaw : Int) (R : ℚ) :
+    (magic_target (N : ℚ) R, magic_low lRaw (magic_target (N : ℚ) R),
+      magic_adjusted (N : ℚ) ((magic_rest (magic_target (N : ℚ) R) (magic_low lRaw (magic_target (N : ℚ) R)) : Int) : ℚ)) =
+    magicParams N lRaw R := by
+  simp only [magic_target_eq, magic_low_eq, magic_rest_eq, magic_adjusted_eq, magicParams]
+
 theorem gaussian_loops_eq : gaussianLoops = expectedGaussianLoops := by decide
 
 theorem poisson_skeleton_eq : poissonSkeleton = expectedPoissonSkeleton := by decide
 
 /-- `choose_acceleration`: one index draw selects acceleration and centre fraction of the same position; `uniform_range` raises -/
 theorem choose_skeleton_eq : chooseSkeleton = expectedChooseSkeleton := by decide
+
+/-! ### the interval bookkeeping of the bisection -/
+
+/-- `slope = (slope_max + slope_min) / 2` -/
+theorem poisson_mid_eq (lo hi : ℚ) : poisson_mid lo hi = exactMid lo hi := by
+  unfold poisson_mid exactMid; ring
+
+/-- the binary64 midpoint the driver executes is the rounded **translated** expression: sum rounded, halving exact -/
+theorem poisson_float_mid_eq (lo hi : ℚ) : floatMid lo hi = rnd53 (2 * poisson_mid lo hi) / 2 := by
+  unfold floatMid poisson_mid; congr 2; ring
+
+/-- `actual < acceleration` moves the lower end, otherwise the upper end — as `bisectIv` does -/
+theorem poisson_update_eq : poissonUpdate = expectedPoissonUpdate := by decide
+
+theorem poisson_init_eq : poissonInit = expectedPoissonInit := by decide
+
+/-- `tol` is the bound of both tolerance tests, `max_attempts` reaches the kernel, `crop_corner` crops before the
+acceleration is evaluated -/
+theorem poisson_options_eq : poissonOptions = expectedPoissonOptions := by decide
 
 /-- nothing between the last tolerance evaluation and `return mask` modifies `mask`, and `mask` itself is returned -/
 theorem poisson_post_ok : postOk poissonPost = true := by decide
@@ -59,5 +122,11 @@ theorem poisson_post_ok : postOk poissonPost = true := by decide
 theorem code_bisection_post_returned (R tol : ℚ) (ps : List Probe) (effect : ℚ → ℚ) (a : ℚ) (n : Nat)
     (hr : poisson R tol ps (postOfTable poissonPost effect) = .returned a n) : |a - R| < tol :=
   DirectVerif.C07.bisection_post_returned_table R tol ps poissonPost poisson_post_ok effect a n hr
+
+/-- the interval post-condition for the code as it is: generated post table, any midpoint function -/
+theorem code_bisection_iv_post_returned (mid : ℚ → ℚ → ℚ) (R tol : ℚ) (accs : List ℚ) (lo hi : ℚ) (effect : ℚ → ℚ)
+    (a : ℚ) (n : Nat) (s : ℚ) (hr : poissonIv mid R tol accs lo hi (postOfTable poissonPost effect) = .returned a n s) :
+    |a - R| < tol :=
+  DirectVerif.C07.bisection_iv_post_returned mid R tol accs lo hi poissonPost poisson_post_ok effect a n s hr
 
 end DirectVerif.Bridge.C07
